@@ -31,12 +31,19 @@ def run(ctx):
 
     for n, w in ((3, 1), (3, 2), (3, 4)) + (((4, 3), (5, 2)) if th else ()):
         ctx.tlc("conc/QuadFixed.tla", "conc/QuadFixed.cfg", subst=dict(N=n, W=w), name="R1 QuadFixed n=%d workers=%d" % (n, w))
-    ctx.tlc("conc/Pool.tla", "conc/Pool.cfg", subst=dict(DP="FALSE"), name="R1 Pool discipline (3 goroutines, 2 buffers)")
-    st = ctx.tlc("conc/Pool.tla", "conc/Pool.cfg", subst=dict(DP="TRUE"), name="R1 Pool with a double put (must violate Exclusive)",
-                 expect_fail=True)
-    if st["ok"] or "Exclusive is violated" not in st.get("output_tail", ""):
-        from vlib import Undecided
-        raise Undecided("the Pool model does not distinguish a double put (vacuous model)")
+    allinv = "Exclusive ClassPromise NoSliceOutOfRange CapClause"
+    ctx.tlc("conc/Pool.tla", "conc/Pool.cfg", subst=dict(B=3, DP="FALSE", REGROW=1, MAXCLASS=3 if th else 2, INVS=allinv),
+            name="R1 Pool discipline (3 goroutines, 3 buffers, size classes, power-of-two regrowth)")
+    for sub, inv, what in ((dict(B=2, DP="TRUE", REGROW=0, MAXCLASS=1, INVS=allinv), "Exclusive", "a double put"),
+                           (dict(B=3, DP="FALSE", REGROW=2, MAXCLASS=2, INVS="ClassPromise"), "ClassPromise",
+                            "a workspace regrown to an exact capacity and put back"),
+                           (dict(B=3, DP="FALSE", REGROW=2, MAXCLASS=2, INVS="NoSliceOutOfRange"), "NoSliceOutOfRange",
+                            "a later get of the undersized workspace")):
+        st = ctx.tlc("conc/Pool.tla", "conc/Pool.cfg", subst=sub, name="R1 Pool with %s (must violate %s)" % (what, inv),
+                     expect_fail=True)
+        if st["ok"] or ("%s is violated" % inv) not in st.get("output_tail", ""):
+            from vlib import Undecided
+            raise Undecided("the Pool model does not distinguish %s (vacuous model)" % what)
 
     # shared objects (unit registry, lazily initialised Wishart): the implementation-shaped model is
     # linearizable; the unlocked / un-onced mutants of the model must be distinguished (non-vacuity)
@@ -53,7 +60,8 @@ def run(ctx):
     mz.r3(ctx, th, b, "default", "C09")
     procs = "1,2,4,16"
     tr = os.path.join(ctx.work, "conc.ndjson")
-    summ = ctx.record(b, "conc", tr, ["procs=" + procs, "reps=%d" % (4 if th else 2)], name="R3 record gemm/quad/jacobian/pools", timeout=1500)
+    summ = ctx.record(b, "conc", tr, ["kinds=gemm,quad,jac,pool,fd", "procs=" + procs, "reps=%d" % (4 if th else 2)],
+                      name="R3 record gemm/quad/jacobian/pools", timeout=1500)
     ok, st = ctx.validate("conc/ForkJoinTrace.tla", "conc/ForkJoinTrace.cfg", tr, name="R3 validate fork/join traces", timeout=1500)
     if ok:
         n = summ.get("traces", 0)
@@ -69,6 +77,45 @@ def run(ctx):
         what = (m.group(1) + ":" + m.group(2).split(" procs")[0].split("/")[0]) if m else "unknown"
         ctx.violation("conc:trace-rejected:" + what, st.get("detail", "")[:900],
                       {"trace": dst, "spec": "conc/ForkJoinTrace.tla", "cfg": {}})
+
+    # fd routines with a user function that uses its argument as scratch space: one trace per routine (concurrent-path
+    # runs first, serial-path runs last), so that a rejection names the routine and the path
+    tr3 = os.path.join(ctx.work, "fdmod.ndjson")
+    summ = ctx.record(b, "conc", tr3, ["kinds=fdmod", "procs=" + procs], name="R3 record fd with an argument-modifying function", timeout=900)
+    lines = [l for l in open(tr3) if l.strip()]
+    routines = ["Gradient", "Jacobian", "Hessian", "Laplacian", "CrossLaplacian"]
+    parts = {}
+    for rt in routines:
+        sel = [l for l in lines if json.loads(l)["name"].startswith("fd.%s " % rt)]
+        if not sel:
+            from vlib import Undecided
+            raise Undecided("no fd.%s run with an argument-modifying function was recorded" % rt)
+        parts[rt] = os.path.join(ctx.work, "fdmod-%s.ndjson" % rt)
+        with open(parts[rt], "w") as fh:
+            fh.writelines(sel)
+    res = ctx.parallel([lambda rt=rt: (rt, ctx.validate("conc/ForkJoinTrace.tla", "conc/ForkJoinTrace.cfg", parts[rt],
+                                                          name="R3 validate fd.%s, argument-modifying function" % rt, timeout=900))
+                        for rt in routines], width=3)
+    for rt, (ok, st) in res:
+        nrt = sum(1 for _ in open(parts[rt]))
+        if ok:
+            ctx.traces += nrt
+            ctx.cases += nrt
+            ctx.nontrivial += sum(1 for l in open(parts[rt]) if " concurrent " in json.loads(l)["name"])
+            continue
+        keep = os.path.join(os.path.dirname(ctx.work), "..", "replays", "C09")
+        os.makedirs(keep, exist_ok=True)
+        dst = os.path.abspath(os.path.join(keep, "fdmod-%s-seed%d.ndjson" % (rt, ctx.seed)))
+        shutil.copy(parts[rt], dst)
+        m = re.search(r"\(call fd\.\w+ scribbling-f (\w+) ", st.get("detail", ""))
+        path = m.group(1) if m else "unknown"
+        ctx.violation("conc:trace-rejected:fd.%s:argument-modifying-function:%s-path" % (rt, path), st.get("detail", "")[:900],
+                      {"trace": dst, "spec": "conc/ForkJoinTrace.tla", "cfg": {}})
+
+    # spec->code: pool scripts (HOGSVD with unequal row counts, then exact integer operations on the shared pools)
+    pf = ctx.gen("conc/PoolSeq.tla", "conc/PoolSeq.cfg", subst=dict(SEED=ctx.seed % 1000, NSCRIPTS=48 if th else 24, EMIT="TRUE"),
+                 name="R2 gen pool scripts (HOGSVD of unequal row counts, then exact integer Pow / aliased Mul / aliased Solve)")
+    ctx.replay(b, "conc-poolseq", pf, [], name="R2 replay pool scripts alone on one P and from 8 goroutines at once")
 
     # shared objects: linearizability of recorded concurrent executions
     tr2 = os.path.join(ctx.work, "shared.ndjson")
@@ -144,5 +191,11 @@ def replay(ctx, path):
         if not ok:
             print("VIOLATION property=C09 replay=%s" % path)
         return 0 if ok else 1
+    if "failure" in d:
+        one = os.path.join(ctx.work, "one.ndjson")
+        with open(one, "w") as fh:
+            fh.write(json.dumps(d["failure"]["case"]) + "\n")
+        ctx.replay(ctx.build(""), d["area"], one, d["args"], confirm=False)
+        return ctx.finish()
     print(d.get("race_report", ""))
     return 1
